@@ -280,7 +280,10 @@ PROPS["C19"] = dict(
                "inside the requested box (arccos decreasing and arccos(cos t)=t assumed) and rejects boxes outside [0,360]x[-90,90]; "
                "randcap returns the requested number of points, latitudes in [-90,90] and radii that are degrees within the cap radius "
                "on both the direct and the rotated path (the double radian-to-degree conversion of the rotated path was refuted and "
-               "fixed). Bounded and labelled: points within r of the centre and radii equal to the true separations for centres "
+               "fixed); the cumulative-method sampler maps every deviate it draws through the piecewise-linear inverse of the tabulated "
+               "cumulative distribution (modularly against the proved contract of interplin, for a strictly increasing table); "
+               "random_indices returns the requested number of indices in range, pairwise distinct when unique is set (against "
+               "an assumed contract of Generator.choice). Bounded and labelled: points within r of the centre and radii equal to the true separations for centres "
                "including poles and the seam and radii up to 180 degrees with legacy and new generators, reproducibility, the "
                "cumulative-method sampler with a stub generator, the Cholesky sampler with a recording deviate source, random_indices.",
     level_note="Trusted: esvc, z3; generator draws are arbitrary values in their documented range; rotate is an assumed contract; a "
@@ -336,7 +339,9 @@ PROPS["C04"] = dict(
               "conversion of a copy before writing, byte-order-free compatibility check) plus a labelled bounded round-trip oracle "
               "on real files for the C++ printf/scanf code, which the generator cannot reach",
     level_text="Proved: Recfile.write hands the C++ writer a native-order copy of the table for the text form and never writes "
-               "through the caller's array; the text branch of _ensure_compatible_dtype ignores byte order only. Bounded: random "
+               "through the caller's array; the text branch of _ensure_compatible_dtype ignores byte order only; "
+               "_remove_byteorder drops exactly the order character of each type string (names, widths and sub-array shapes kept) "
+               "and _make_header records the handle's delimiter and that byte-order-free dtype. Bounded: random "
                "tables over {i1..u8, f4, f8, S1..S12} x {scalar, 1-d, 2-d} x both byte orders with type extremes, many decades, "
                "NaN, signed infinities, signed zero, strings with leading / embedded / trailing blanks and delimiter characters, six "
                "delimiters, four entry points; integers and strings compared exactly, floats to 16 / 7 significant digits.",
